@@ -2,7 +2,7 @@
    new_from_nodes_and_edges, integer names) meeting their hypotheses. *)
 From Coq Require Import List Bool ZArith.
 From GV Require Import Base.Outcome Base.AMap Model.GState Model.Creation Model.Query
-     Model.Components Model.Scc Spec.ReachDef Spec.CompSpec.
+     Model.Components Model.Scc Spec.ReachDef Spec.CompSpec Proofs.PartitionsTotalOk.
 Import ListNotations.
 Open Scope Z_scope.
 
@@ -82,3 +82,6 @@ Example scc_hypotheses :
 Proof. vm_compute. reflexivity. Qed.
 Example rev_permutes : forall (l : list Z) x, In x (rev l) <-> In x l.
 Proof. intros l x. symmetry. apply in_rev. Qed.
+
+Example equal_size_total_hypotheses : on_graph ex_dg (fun g => vec_ok_b g) false = true.
+Proof. vm_compute. reflexivity. Qed.
